@@ -2,5 +2,6 @@ SPECIFICATION Spec
 CONSTANTS
   MaxOrder = 5
   MaxDim = 4
+  HighOrders = {9, 10, 11}
   MaxSize = 96
 INVARIANT SpecOK
